@@ -321,7 +321,7 @@ func cmdCheck(args []string) int {
 			}
 		}
 	}
-	ex.activeClass = map[int]bool{}
+	ex.activeClass = map[int]bool{1: true} // ctx.done is built in: nothing is ever sent on a Done channel
 	if P == "C15" || P == "ALL" || *only != "" {
 		for _, cc := range specs.ClassList {
 			ex.activeClass[cc.ID] = true
@@ -959,6 +959,9 @@ func (ex *Exec) closureEntry(st *State, pf *Frame, fn *ssa.Function, binds []Val
 	}
 	prove := parent != nil
 	key := ex.prog.Keys[fn]
+	if !prove && sp != nil && sp.Once {
+		ex.onceEntry(st, fn, binds, key)
+	}
 	for i, fv := range fn.FreeVars {
 		if i >= len(binds) {
 			break
@@ -1568,6 +1571,109 @@ func (ex *Exec) objinvStability() {
 					ex.specError("%s:%d: object invariant of %s reads field %s whose discipline is %q (not write-once): the invariant is not stable", c.File, c.Line, tk, key, fs.Disc)
 				}
 			}
+		}
+	}
+}
+
+// onceEntry: a closure declared `once` is only ever handed to (*sync.Once).Do (checked on the SSA of
+// its parent), so it runs at most once; a captured channel that is closed in this closure and nowhere
+// else in the parent or its other closures is therefore still open when the closure starts (A-once:
+// sync.Once runs its function at most once).
+func (ex *Exec) onceEntry(st *State, fn *ssa.Function, binds []Val, key string) {
+	parent := fn.Parent()
+	if parent == nil {
+		ex.specError("%s: once on a function that is not a closure", key)
+		return
+	}
+	// (1) every use of the closure value is the argument of (*sync.Once).Do
+	var allFns func(f *ssa.Function, visit func(*ssa.Function))
+	allFns = func(f *ssa.Function, visit func(*ssa.Function)) {
+		visit(f)
+		for _, a := range f.AnonFuncs {
+			allFns(a, visit)
+		}
+	}
+	okUse := true
+	for _, b := range parent.Blocks {
+		for _, in := range b.Instrs {
+			mc, isMC := in.(*ssa.MakeClosure)
+			if !isMC || mc.Fn != ssa.Value(fn) {
+				continue
+			}
+			for _, r := range *mc.Referrers() {
+				c, isCall := r.(ssa.CallInstruction)
+				if _, isDbg := r.(*ssa.DebugRef); isDbg {
+					continue
+				}
+				if !isCall || c.Common().StaticCallee() == nil || c.Common().StaticCallee().String() != "(*sync.Once).Do" {
+					okUse = false
+				}
+			}
+		}
+	}
+	if !okUse {
+		ex.specError("%s: declared once but not only passed to (*sync.Once).Do", key)
+		return
+	}
+	// (2) captured channels closed here and nowhere else in the parent's closure family
+	root := parent
+	for root.Parent() != nil {
+		root = root.Parent()
+	}
+	closedVars := map[string]bool{}
+	closesOf := func(f *ssa.Function) map[string]bool {
+		out := map[string]bool{}
+		for _, b := range f.Blocks {
+			for _, in := range b.Instrs {
+				c, ok := in.(ssa.CallInstruction)
+				if !ok {
+					continue
+				}
+				if bi, ok := c.Common().Value.(*ssa.Builtin); !ok || bi.Name() != "close" {
+					continue
+				}
+				v := c.Common().Args[0]
+				if u, ok := v.(*ssa.UnOp); ok && u.Op == token.MUL {
+					v = u.X
+				}
+				switch x := v.(type) {
+				case *ssa.FreeVar:
+					out[x.Name()] = true
+				case *ssa.Alloc:
+					out[x.Comment] = true
+				case *ssa.Parameter:
+					out[x.Name()] = true
+				default:
+					out["?"] = true
+				}
+			}
+		}
+		return out
+	}
+	for n := range closesOf(fn) {
+		closedVars[n] = true
+	}
+	allFns(root, func(f *ssa.Function) {
+		if f == fn {
+			return
+		}
+		for n := range closesOf(f) {
+			if closedVars[n] || n == "?" {
+				delete(closedVars, n)
+				if n == "?" {
+					closedVars = map[string]bool{}
+				}
+			}
+		}
+	})
+	for i, fv := range fn.FreeVars {
+		if i >= len(binds) || !closedVars[fv.Name()] {
+			continue
+		}
+		v := ex.load(st, binds[i])
+		if isChanType(v.Typ) {
+			st.assume("(not " + st.read("closed", "Bool", v.T) + ")")
+			ex.use("assumed: A-once: " + key + " runs at most once (only passed to sync.Once.Do), and " + fv.Name() + " is closed nowhere else, so it is open when the closure starts")
 		}
 	}
 }
